@@ -523,6 +523,7 @@ OrderOfCommon(pre, post) ==
 Allowed_C15(hs, pre, e) ==
     (e.ev \in {"Contains", "Iter"} /\ (~IsSync(hs) \/ Quiescent(pre))) =>
         /\ e.snap.fq = pre.fq                                         \* estimator untouched
+        /\ e.snap.sk.on = pre.sk.on                                   \* ... and not switched on either
         /\ IsSync(hs) => (e.snap.rlen = 0 /\ e.snap.wlen = 0)          \* nothing recorded for later
         /\ \A i \in DOMAIN e.snap.res :                                \* idle timers untouched
               LET r == e.snap.res[i] IN
